@@ -6,7 +6,6 @@ pub open spec fn tmp_inv(m: TM, used0: Set<u32>, t: TmpV, alloc: Set<u32>) -> bo
     &&& (forall|k: u32| #![trigger m.contains_key(k)] m.contains_key(k) ==> used0.contains(k))
     &&& (forall|k: u32| #![trigger t.deleted.contains(k)] t.deleted.contains(k) ==> m.contains_key(k))
 }
-pub open spec fn over_cap(t: TNode, cap: u64) -> bool { t matches TNode::Desc(b) && b.len() > cap }
 
 pub open spec fn ins_post(m: TM, used0: Set<u32>, cur: NodeId, t0: TmpV, t1: TmpV, a0: Set<u32>, a1: Set<u32>, ins: Set<u32>, cap: u64,
                           large0: Set<u32>, large1: Set<u32>, new: NodeId, leafs: &ImmutableLeafs) -> bool {
